@@ -20,7 +20,7 @@ pub enum SAct
     Revoke(usize), Run(Ref), SysEvent(Ref, usize, u32), Broadcast(usize, u32), EntityEvent(Ref, usize, u32),
     ResMut(usize), ResSet(usize, u32, bool), ResRead(usize), Insert(Ref, usize, u32), Mutate(Ref, usize, u32), MutNr(Ref, usize, u32), ResNr(usize, u32),
     SetNeq(Ref, usize, u32), ReadComp(Ref, usize), Remove(Ref, usize), Despawn(Ref), DespawnRec(Ref),
-    EwrAdd(usize, Ref, u32), EwrRemove(usize, Vec<STrig>), WrAdd(usize, Vec<STrig>), WrRemove(usize, Vec<STrig>), WrRun(usize),
+    EwrAdd(usize, Ref, u32), EwrAddNow(usize, Ref, u32), EwrRemove(usize, Vec<STrig>), WrAdd(usize, Vec<STrig>), WrRemove(usize, Vec<STrig>), WrRun(usize),
     /// The `World`-level form of a sender, called in-line by an exclusive system after a `world.flush()`.
     Direct(Box<SAct>),
     /// `world.flush()` in the middle of an exclusive body.
@@ -114,6 +114,7 @@ fn parse_act(t: &[&str]) -> Option<SAct>
         ["despawn", e] => SAct::Despawn(parse_ref(e)?),
         ["despawnrec", e] => SAct::DespawnRec(parse_ref(e)?),
         ["ewradd", wr, e, v] => SAct::EwrAdd(num(wr)?, parse_ref(e)?, num(v)?),
+        ["ewraddnow", wr, e, v] => SAct::EwrAddNow(num(wr)?, parse_ref(e)?, num(v)?),
         ["ewrremove", wr, ts @ ..] => SAct::EwrRemove(num(wr)?, parse_trigs(ts)?),
         ["wradd", wr, ts @ ..] => SAct::WrAdd(num(wr)?, parse_trigs(ts)?),
         ["wrremove", wr, ts @ ..] => SAct::WrRemove(num(wr)?, parse_trigs(ts)?),
